@@ -734,7 +734,11 @@ pub fn run(ctx: &mut Ctx) {
 
         // ---- serde deserializers on mutated own output
         let n = scale(3_000, 30_000, 6);
-        ctx.phase("serde-inputs", n, |ctx, k| {
+        // In the ASan lane the first report ends the process; the open finding (over-read behind the
+        // binary serde form of commitments, see known_findings.json) would end every shard at its
+        // first serde case, so the binary-serde calls are left to the native and memcheck lanes.
+        let binary_serde = ctx.lane != "asan";
+        ctx.phase("serde-inputs", n, move |ctx, k| {
             let t = gen::tx(&mut ctx.rng, &TxDials::default());
             let js = serde_json::to_string(&t).unwrap_or_default();
             let cb = serde_cbor::to_vec(&t).unwrap_or_default();
@@ -749,7 +753,9 @@ pub fn run(ctx: &mut Ctx) {
                 let mut c = cb.clone();
                 mutate::generic(&mut ctx.rng, &mut c);
                 let d2 = || json!({"cbor": hex_short(&c)});
-                call(ctx, "serde_cbor::from_slice::<Transaction>", c.len(), &d2, || serde_cbor::from_slice::<Transaction>(&c).is_ok());
+                if binary_serde {
+                    call(ctx, "serde_cbor::from_slice::<Transaction>", c.len(), &d2, || serde_cbor::from_slice::<Transaction>(&c).is_ok());
+                }
             }
             // confidential values with commitments of the wrong length, through serde
             for l in [0usize, 1, 16, 32, 34] {
@@ -759,6 +765,10 @@ pub fn run(ctx: &mut Ctx) {
                 call(ctx, "serde_json::from_str::<Value>[short-commitment]", s.len(), &d, || serde_json::from_str::<elements::confidential::Value>(&s).is_ok());
                 let s2 = format!("[2,\"{}\"]", crate::rt::hex(&vec![0x0au8; l]));
                 call(ctx, "serde_json::from_str::<Asset>[short-commitment]", s2.len(), &d, || serde_json::from_str::<elements::confidential::Asset>(&s2).is_ok());
+            }
+            if !binary_serde {
+                ctx.shape(("serde", k % 2));
+                return;
             }
             // the same through a binary self-describing format (CBOR byte strings of any length)
             for l in [0usize, 1, 16, 32, 33, 34, 65] {
